@@ -227,6 +227,21 @@ func (g *richGen) state(st workflow.Status) *workflow.State {
 	return s
 }
 
+// id returns an object id that is NOT ordered by creation time (a third of them; the rest are UUIDv7 as Submit assigns
+// them): the order of children must come from the stored position, never from the ids.
+func (g *richGen) id() uuid.UUID {
+	if g.r.IntN(3) != 0 {
+		return workflow.NewV7()
+	}
+	var u uuid.UUID
+	for i := range u {
+		u[i] = byte(g.r.IntN(256))
+	}
+	u[6] = (u[6] & 0x0f) | 0x40 // version 4
+	u[8] = (u[8] & 0x3f) | 0x80
+	return u
+}
+
 func (g *richGen) key() uuid.UUID {
 	if g.r.IntN(2) == 0 {
 		return uuid.Nil
@@ -265,7 +280,7 @@ func (g *richGen) attempts(ptr bool) []*workflow.Attempt {
 func (g *richGen) action(check bool, st workflow.Status) *workflow.Action {
 	g.n++
 	ptr := g.r.IntN(3) == 0
-	a := &workflow.Action{ID: workflow.NewV7(), Key: g.key(), Name: fmt.Sprintf("%sa%d", g.pre, g.n), Descr: fmt.Sprintf("descr %d", g.n),
+	a := &workflow.Action{ID: g.id(), Key: g.key(), Name: fmt.Sprintf("%sa%d", g.pre, g.n), Descr: fmt.Sprintf("descr %d", g.n),
 		Timeout: time.Duration(5+g.r.IntN(100)) * time.Second, Retries: g.r.IntN(4), State: g.state(st)}
 	sec := !ptr && g.sec && g.r.IntN(3) == 0
 	switch {
@@ -295,7 +310,7 @@ func (g *richGen) checks(p float64, st workflow.Status) *workflow.Checks {
 	if g.r.Float64() >= p {
 		return nil
 	}
-	c := &workflow.Checks{ID: workflow.NewV7(), Key: g.key(), Delay: time.Duration(g.r.IntN(5000)) * time.Millisecond, State: g.state(st)}
+	c := &workflow.Checks{ID: g.id(), Key: g.key(), Delay: time.Duration(g.r.IntN(5000)) * time.Millisecond, State: g.state(st)}
 	for i := 1 + g.r.IntN(2); i > 0; i-- {
 		c.Actions = append(c.Actions, g.action(true, st))
 	}
@@ -325,12 +340,12 @@ func (g *richGen) plan(executed bool) *workflow.Plan {
 	p.BypassChecks, p.PreChecks, p.ContChecks, p.PostChecks, p.DeferredChecks = g.checks(0.3, st()), g.checks(0.5, st()), g.checks(0.3, st()), g.checks(0.4, st()), g.checks(0.3, st())
 	for b := 1 + g.r.IntN(3); b > 0; b-- {
 		g.n++
-		blk := &workflow.Block{ID: workflow.NewV7(), Key: g.key(), Name: fmt.Sprintf("%sb%d", g.pre, g.n), Descr: "block", EntranceDelay: time.Duration(g.r.IntN(3)) * time.Second,
+		blk := &workflow.Block{ID: g.id(), Key: g.key(), Name: fmt.Sprintf("%sb%d", g.pre, g.n), Descr: "block", EntranceDelay: time.Duration(g.r.IntN(3)) * time.Second,
 			ExitDelay: time.Duration(g.r.IntN(3)) * time.Millisecond, Concurrency: 1 + g.r.IntN(4), ToleratedFailures: g.r.IntN(4) - 1, State: g.state(st())}
 		blk.BypassChecks, blk.PreChecks, blk.ContChecks, blk.PostChecks, blk.DeferredChecks = g.checks(0.2, st()), g.checks(0.3, st()), g.checks(0.2, st()), g.checks(0.3, st()), g.checks(0.3, st())
 		for s := 1 + g.r.IntN(3); s > 0; s-- {
 			g.n++
-			q := &workflow.Sequence{ID: workflow.NewV7(), Key: g.key(), Name: fmt.Sprintf("%ss%d", g.pre, g.n), Descr: "seq", State: g.state(st())}
+			q := &workflow.Sequence{ID: g.id(), Key: g.key(), Name: fmt.Sprintf("%ss%d", g.pre, g.n), Descr: "seq", State: g.state(st())}
 			for a := 1 + g.r.IntN(3); a > 0; a-- {
 				q.Actions = append(q.Actions, g.action(false, st()))
 			}
